@@ -790,6 +790,10 @@ def run_moments_case(ctx, drv, case):
 
     f = FunctionCustom(fvecfun, output_dim=3)
     op, a, b = make_op(dims, f, case.get("form", "list"))
+    # sharing as the implementation really does it (none once _prepare_distributions keys by domain)
+    impl_reuse = [min(j for j in range(d + 1) if op.distributions[j] is op.distributions[d]) for d in range(ndim)]
+    anyshared = any(shared_other_domain(dims, d) and impl_reuse[d] != d for d in range(ndim))
+    tags["shared_other_domain"] = anyshared
     grid = GlobalTrapezoidalGridWeighted(a, b, op, boundary=boundary)
     op.set_grid(grid)
     op.set_expectation_variance_Function()
@@ -885,15 +889,15 @@ def run_moments_case(ctx, drv, case):
         if boundary:
             for d in range(ndim):
                 mass_decl *= Ref(dims[d]["spec"], dims[d]["a"], dims[d]["b"]).m0(dims[d]["a"], dims[d]["b"])
-                j = [x for x in range(d + 1) if dims[x]["spec"] == dims[d]["spec"]][0]
+                j = impl_reuse[d]
                 mass_eff *= Ref(dims[j]["spec"], dims[j]["a"], dims[j]["b"]).m0(dims[d]["a"], dims[d]["b"])
         detail["mass_of_box"] = mass_decl
         if not gen_ok or abs(S - 1.0) <= 1e-9:
             viol("moments-law", detail)
-        elif anyshared and abs(S - mass_eff) <= 1e-9:
-            viol("shared-distribution-object", detail)
         elif abs(S - mass_decl) <= 1e-9:
             viol("mass-not-one", detail)
+        elif anyshared and abs(S - mass_eff) <= 1e-9:
+            viol("shared-distribution-object", detail)
         else:
             viol("weights-sum", detail)
     return ok
